@@ -330,12 +330,14 @@ outer:
 		}
 	}
 
+	// Quirks may override capabilities. Apply them before any mode is enabled,
+	// so that the same capabilities decide what is enabled and what is reset
+	vx.applyQuirks()
 	vx.enterAltScreen()
 	vx.enableModes()
 	if !opts.NoSignals {
 		vx.setupSignals()
 	}
-	vx.applyQuirks()
 
 	switch os.Getenv("VAXIS_GRAPHICS") {
 	case "none":
